@@ -17,7 +17,10 @@ META = {
                   "200 outstanding requests and validating each recorded trace as a behaviour of the spec.",
 }
 ASSUMPTIONS = [
-    "client order ids of the requests outstanding at one manager are distinct",
+    "the order keys (exchange, instrument, strategy, client order id) of the requests outstanding at one manager are distinct; "
+    "client order ids alone need not be: in every odd scenario neighbouring requests for DIFFERENT instruments bear one "
+    "client order id, and each answer must still come back under the key of its own request (the driver identifies a request "
+    "by its strategy id, unique per request, and requires the client order id that request bore)",
     "the exchange client echoes the key and order fields of the request it was given and reports 0 <= filled <= quantity",
     "the client's own errors are not Connectivity(Timeout) (otherwise its response and the timeout failure are the same event)",
     "request keys are configured in the manager's instrument map (otherwise ExecutionManager::run panics by design)",
@@ -367,6 +370,9 @@ def check(ctx):
         ctx.cov["timeout_%dms" % T] = {k: info_z.get(k) for k in ("scenarios", "responses", "timeout_failures", "built_with_init")}
     if not built_with_init:
         raise vlib.ToolError("no manager was built through ExecutionManager::init")
+    if not info_n.get("requests_sharing_a_client_order_id"):
+        raise vlib.ToolError("no two requests of the no-timeout scenarios shared a client order id")
+    ctx.cov["requests_sharing_a_client_order_id_no_timeout_family"] = info_n.get("requests_sharing_a_client_order_id")
     ctx.cov["managers_built_with_init"] = built_with_init
     ctx.cov["no_timeout"] = {k: info_n.get(k) for k in ("no_timeout_scenarios", "responses", "timeout_failures",
                                                         "no_timeout_responses_after_long_delay")}
